@@ -39,18 +39,20 @@ class Mean(Aggregation):
         if len(new):
             totals = totals + new.sum()
             counts = counts + new.count()
+        divisor = counts
         if isinstance(counts, Number) and counts == 0:
-            counts = 1
-        return (totals, counts), totals / counts
+            divisor = 1  # guard the division only; the state keeps the true count
+        return (totals, counts), totals / divisor
 
     def on_old(self, acc, old):
         totals, counts = acc
         if len(old):
             totals = totals - old.sum()
             counts = counts - old.count()
+        divisor = counts
         if isinstance(counts, Number) and counts == 0:
-            counts = 1
-        return (totals, counts), totals / counts
+            divisor = 1  # guard the division only; the state keeps the true count
+        return (totals, counts), totals / divisor
 
     def initial(self, new):
         s, c = new.sum(), new.count()
